@@ -30,7 +30,7 @@ impl Fam {
     pub fn max_n(self) -> usize {
         match self {
             Fam::Dyn => 14,
-            Fam::Static => 12,
+            Fam::Static => 13,
         }
     }
     pub fn label(self) -> &'static str {
@@ -82,6 +82,9 @@ pub trait Tab: Send {
     // operators, every syntactic form
     fn not_form(&self, form: usize) -> T;
     fn bin_form(&self, op: BinOp, form: usize, rhs: &dyn Tab) -> T;
+    /// the same with the operands copied to chosen offsets modulo 16 bytes (place 0: self at 0, rhs
+    /// at 8; 1: self at 8, rhs at 0; 2: both at 8) — for the fixed-size types, whose words are inline
+    fn bin_form_placed(&self, op: BinOp, form: usize, rhs: &dyn Tab, place: u8) -> T;
     // variable transforms
     fn flip(&self, i: usize) -> T;
     fn flip_inplace(&mut self, i: usize);
@@ -162,6 +165,9 @@ pub trait Family: Sync {
     /// From<u8/u16/u32/u64> for Lut3..Lut6 (static family only)
     fn from_int(&self, n: usize, v: u64) -> Option<T>;
 }
+
+/// a fixed-size type beyond the exported aliases (the generic type is public)
+pub type Lut13 = volute::StaticLut<13, 128>;
 
 pub struct W<L>(pub L);
 
@@ -267,6 +273,16 @@ macro_rules! bin_forms {
     };
 }
 
+#[repr(C, align(16))]
+struct At0<L> {
+    v: L,
+}
+#[repr(C, align(16))]
+struct At8<L> {
+    pad: u64,
+    v: L,
+}
+
 macro_rules! impl_tab {
     ($ty:ty, $fam:expr, $convert:expr, $toint:expr) => {
         impl Tab for W<$ty> {
@@ -327,6 +343,23 @@ macro_rules! impl_tab {
             fn bin_form(&self, op: BinOp, form: usize, rhs: &dyn Tab) -> T {
                 let a = &self.0;
                 let b = inner::<$ty>(rhs);
+                let r: $ty = match op {
+                    BinOp::And => bin_forms!(a, b, form, and, and_inplace, &, &=),
+                    BinOp::Or => bin_forms!(a, b, form, or, or_inplace, |, |=),
+                    BinOp::Xor => bin_forms!(a, b, form, xor, xor_inplace, ^, ^=),
+                };
+                Box::new(W(r))
+            }
+            fn bin_form_placed(&self, op: BinOp, form: usize, rhs: &dyn Tab, place: u8) -> T {
+                let r0 = inner::<$ty>(rhs);
+                let (a0, a8) = (At0 { v: self.0.clone() }, At8 { pad: 0, v: self.0.clone() });
+                let (b0, b8) = (At0 { v: r0.clone() }, At8 { pad: 0, v: r0.clone() });
+                std::hint::black_box((&a0, &a8, &b0, &b8, a8.pad, b8.pad));
+                let (a, b): (&$ty, &$ty) = match place {
+                    0 => (&a0.v, &b8.v),
+                    1 => (&a8.v, &b0.v),
+                    _ => (&a8.v, &b8.v),
+                };
                 let r: $ty = match op {
                     BinOp::And => bin_forms!(a, b, form, and, and_inplace, &, &=),
                     BinOp::Or => bin_forms!(a, b, form, or, or_inplace, |, |=),
@@ -521,6 +554,10 @@ macro_rules! with_static {
                 type $L = Lut12;
                 $body
             }
+            13 => {
+                type $L = Lut13;
+                $body
+            }
             _ => panic!("harness bug: no static alias for n={}", $n),
         }
     };
@@ -559,6 +596,7 @@ impl_static!(Lut9, |_| None);
 impl_static!(Lut10, |_| None);
 impl_static!(Lut11, |_| None);
 impl_static!(Lut12, |_| None);
+impl_static!(Lut13, |_| None);
 
 pub struct DynFam;
 pub struct StatFam;
